@@ -621,3 +621,38 @@ def taper_rule(ck, prog: Program, rule: str):
         ck.ok(rule, q, "no state outside the object is written (no taper cache)")
     for e in bad:
         ck.violation(rule, q, e.site.text, f"tapering keeps state between calls: {describe_effect(e)} (the taper applied would depend on earlier calls)", loc=e.site.loc)
+
+
+COMPONENT_PARAMS = ("component", "comp", "component_name", "which")
+
+
+def psd_source(prog: Program) -> str:
+    """How a call of processing._rpds_single_component for component {c} of `records` is spelled under the helper's *current*
+    signature (format string): either it receives the list of that component's series, or the records plus the component's name
+    (then the helper extracts `getattr(record, <name>)` itself - checked by C17.R1)."""
+    g = prog.func("processing._rpds_single_component")
+    names = list(g.params) + [k for k in g.kwonly if k not in g.params]
+    comp = next((p_ for p_ in names if p_ in COMPONENT_PARAMS), None)
+    if comp is None:
+        if list(g.params[:2]) == [psd_data_param(prog), "settings"]:
+            return "_rpds_single_component([record.{c} for record in records], settings)"
+        return "_rpds_single_component(settings, [record.{c} for record in records])"
+    order = {p_: i for i, p_ in enumerate(g.params)}
+    data = psd_data_param(prog)
+    pos = [("records", order[data])] + ([("settings", order["settings"])] if "settings" in order else []) + ([("'{c}'", order[comp])] if comp in order else [])
+    txt = ", ".join(a for a, _ in sorted(pos, key=lambda x: x[1]))
+    if comp in g.kwonly:
+        txt += ", " + comp + "='{c}'"
+    if "settings" in g.kwonly:
+        txt += ", settings=settings"
+    return "_rpds_single_component(" + txt + ")"
+
+
+def psd_data_param(prog: Program) -> str:
+    """The parameter of _rpds_single_component that receives the data (series or records): the one that is neither the settings
+    nor the component's name."""
+    g = prog.func("processing._rpds_single_component")
+    cands = [p_ for p_ in g.params if p_ != "settings" and p_ not in COMPONENT_PARAMS]
+    if len(cands) != 1:
+        raise AnalysisError(f"{g.qualname}: parameters are {g.params}")
+    return cands[0]
